@@ -18,7 +18,7 @@ Proj == [ac |-> ac, intx |-> intx, alive |-> alive, reply |-> reply,
 GenInit == Init /\ hist = <<>>
 
 GenNext == /\ IF nc >= GenLen THEN Ending ELSE Next
-           /\ hist' = Append(hist, [k |-> last'.k, sl |-> last'.sl, kind |-> last'.kind, first |-> last'.first,
+           /\ hist' = Append(hist, [k |-> last'.k, sl |-> last'.sl, kind |-> last'.kind, first |-> last'.first, mid |-> last'.mid,
                                     ord |-> (last'.k = "shard" /\ OrderMatters(last'.sl, last'.kind, last'.fl)),
                                     f |-> last'.fl, exp |-> Proj'])
 
